@@ -44,6 +44,12 @@ class FX:
                 if b.get("cond") is not None:
                     self.cond_block.setdefault(b["cond"], b["id"])
 
+    def owns(self, n):
+        """n is a node of this function's tree"""
+        if not hasattr(self, "_ids"):
+            self._ids = {id(x) for x in self.fn.nodes()}
+        return id(n) in self._ids
+
     def ancestors(self, n):
         p = self.parent.get(id(n))
         while p is not None:
@@ -148,6 +154,43 @@ class FX:
                     if set(cfg.blocks[s0]["el"]) & body_ids:
                         return b["id"]
         return None
+
+
+def eval_succ(fx, blk, env):
+    """successors of a CFG block under a concrete environment: the edge taken by a two-way branch or a
+    switch whose condition the environment decides (case labels are read off the successor blocks),
+    otherwise all successors"""
+    fn = fx.fn
+    succ = [s_ for s_ in blk.get("succ", []) if s_ is not None]
+    if blk.get("cond") is None:
+        return succ
+    c = fn.by_id(blk["cond"])
+    if c is None:
+        return succ
+    try:
+        v = ev(fn, c, env)
+    except Unknown:
+        return succ
+    if blk.get("term") == "SwitchStmt":
+        hit, dflt, plain = None, None, None
+        for s_ in succ:
+            lab = fx.cfg.blocks[s_].get("label")
+            lab = fn.by_id(lab) if lab is not None else None
+            if lab is None:
+                plain = s_
+            elif lab.get("k") == "Default":
+                dflt = s_
+            elif lab.get("k") == "Case" and "v" in (lab.get("v") or {}):
+                if int(lab["v"]["v"]) == v:
+                    hit = s_
+            else:
+                return succ
+        r = hit if hit is not None else (dflt if dflt is not None else plain)
+        return [r] if r is not None else succ
+    if len(blk.get("succ", [])) == 2:
+        s_ = blk["succ"][0 if v else 1]
+        return [s_] if s_ is not None else []
+    return succ
 
 
 def single_def_inits(fn):
@@ -499,8 +542,26 @@ def opaque_calls(fx, about=None):
     return out
 
 
-def unmodelled_locking(fx, mutex_pred):
-    """description of a locking construct on the mutex that lock_held_at() does not model, or None"""
+def touches_lock(fn, mutex_pred, depth=0):
+    """fn (or a member helper it calls, bounded depth) mentions the mutex, declares a lock object, or
+    hands `this` to a callee whose body is not followed"""
+    for n in fn.nodes():
+        if n.get("k") in ("Member", "Ref") and mutex_pred(n):
+            return True
+        if n.get("k") == "Var" and re.search(r"std::(unique_lock|lock_guard|scoped_lock|shared_lock|mutex)", fn.type(n.get("t")) or ""):
+            return True
+        if n.get("k") == "MCall" and (n.get("obj") or {}).get("k") == "This":
+            h = find_method(fn.cls, n)
+            if h is None or depth >= 3 or h.d.get("virtual") or touches_lock(h, mutex_pred, depth + 1):
+                return True
+        elif is_call(n) and any(strip(a).get("k") == "This" for a in n.get("a", [])):
+            return True
+    return False
+
+
+def unmodelled_locking(fx, mutex_pred, followed=()):
+    """description of a locking construct on the mutex that lock_held_at() does not model, or None.
+    `followed`: helper call nodes whose bodies the caller analyses itself"""
     modelled = {id(v) for v, m in lock_decls(fx)}     # plain locks on identifiable mutexes (ours or another one)
     for n in fx.fn.nodes():
         if n.get("k") == "Var" and id(n) not in modelled and re.search(r"std::(unique_lock|lock_guard|scoped_lock|shared_lock)", fx.fn.type(n.get("t")) or ""):
@@ -511,6 +572,12 @@ def unmodelled_locking(fx, mutex_pred):
             if any(mutex_pred(strip(a)) for a in n.get("a", [])):
                 return "the mutex is passed to `%s` (line %s)" % (n.get("callee"), n.get("l"))
     for n in opaque_calls(fx):
+        if any(n is f_ for f_ in followed):
+            continue
+        if n.get("k") == "MCall" and (n.get("obj") or {}).get("k") == "This":
+            h = find_method(fx.fn.cls, n)
+            if h is not None and not h.d.get("virtual") and not touches_lock(h, mutex_pred):
+                continue        # a helper that never mentions the mutex or a lock cannot take it
         return "helper call `%s` (line %s) may take the lock" % (n.get("callee") or render(n), n.get("l"))
     return None
 
@@ -566,11 +633,21 @@ class WorkerModel:
                 e.fields[f] = val
         return e
 
+    def is_dispatcher(self, fn):
+        """a member function that only selects a work function: no loop, no task/fence operation of its
+        own, and it calls at least one other member function that synchronises"""
+        if any(n.get("k") in ("For", "While", "Do", "ForRange") or task_call(n) or fence_call(n) for n in fn.nodes()):
+            return False
+        return any(n.get("k") == "MCall" and (n.get("obj") or {}).get("k") == "This" and n.get("n") in self.methods and has_sync_events(self.methods[n["n"]]) for n in fn.nodes())
+
     def dispatch(self, ident, nwork, strategy):
-        """set of variant method names operator() can call in this context (concrete CFG walk)"""
-        fn = self.call_op
+        """set of variant method names operator() can call in this context (concrete CFG walk, switch
+        and if-chain alike; a dispatcher helper between operator() and the work functions is walked
+        with the same context)"""
+        return self._dispatch_in(self.call_op, self.env(ident, nwork, strategy), 0)
+
+    def _dispatch_in(self, fn, env, depth):
         fx = self.fx(fn)
-        env = self.env(ident, nwork, strategy)
         out = set()
         seen = set()
         st = [fx.cfg.entry]
@@ -585,18 +662,14 @@ class WorkerModel:
             for e in blk["el"]:
                 n = fn.by_id(e)
                 if n is not None and n.get("k") == "MCall" and (n.get("obj") or {}).get("k") == "This" and n.get("n") in self.methods and n.get("n") != "operator()":
-                    out.add(n["n"])
-            succ = fx.cfg.succ.get(b, [])
-            if blk.get("cond") is not None and len(blk.get("succ", [])) == 2:
-                try:
-                    v = ev(fn, fn.by_id(blk["cond"]), env)
-                    s = blk["succ"][0 if v else 1]
-                    if s is not None:
-                        st.append(s)
-                    continue
-                except Unknown:
-                    pass
-            st.extend(succ)
+                    m = self.methods[n["n"]]
+                    if not has_sync_events(m):
+                        continue        # statistics / logging helper
+                    if depth < 2 and m.cfg is not None and self.is_dispatcher(m):
+                        out |= self._dispatch_in(m, env, depth + 1)
+                    else:
+                        out.add(n["n"])
+            st.extend(eval_succ(fx, blk, env))
         return out
 
 
@@ -632,7 +705,12 @@ def resolve_alias(fx, n):
 def fence_of(fx, call, fences_field, sym, own=None, forall=None):
     """classify the receiver of a ThreadFence call: 'START' (front), 'END' (back), 'ALL' (range-for
     element), 'OWN'/'NEXT' (index relative to `own`), ('IDX', expr) otherwise"""
-    o = resolve_alias(fx, call.get("obj"))
+    return classify_fence(fx, call.get("obj"), fences_field, sym, own=own)
+
+
+def classify_fence(fx, expr, fences_field, sym, own=None):
+    """classification (see fence_of) of an expression denoting a ThreadFence"""
+    o = resolve_alias(fx, expr)
     if o is None:
         raise Unknown("fence receiver")
     if o.get("k") == "Ref":
@@ -646,7 +724,7 @@ def fence_of(fx, call, fences_field, sym, own=None, forall=None):
             base, name, args = o.get("obj"), o.get("n"), o.get("a", [])
         else:
             base, name, args = o["a"][0], "at", o["a"][1:]
-        if this_field(base) != fences_field:
+        if this_field(resolve_alias(fx, base)) != fences_field:
             raise Unknown("fence receiver " + render(o))
         if name == "front":
             return "START"
@@ -685,6 +763,34 @@ def straight_assigns(fn):
     return out
 
 
+def method_assigns(fn, bind=None, depth=0):
+    """field -> value node stored by a branch-free member function, statements in order, branch-free
+    member helpers called on `this` included with their parameters replaced by the caller's arguments"""
+    out = {}
+    bind = bind or {}
+    if any(n.get("k") in ("If", "For", "While", "Do", "Switch", "Cond", "ForRange", "Try") for n in fn.nodes()):
+        raise Unknown("branches in " + fn.full)
+
+    def val(n):
+        n = strip(n)
+        if n.get("k") == "Assign":
+            return val(n["rhs"])
+        if n.get("k") == "Ref" and n.get("dk") == "param" and n.get("d") in bind:
+            return bind[n["d"]]
+        return n
+    for n in fn.nodes():
+        if n.get("k") == "Assign" and n.get("op") == "=":
+            f = this_field(n["lhs"])
+            if f is not None:
+                out[f] = val(n["rhs"])
+        elif n.get("k") == "MCall" and (n.get("obj") or {}).get("k") == "This":
+            h = find_method(fn.cls, n)
+            if h is None or h.body is None or depth >= 2 or h.d.get("virtual") or len(h.params) != len(n.get("a", [])):
+                raise Unknown("helper `%s` in %s() not followed" % (n.get("callee"), fn.name))
+            out.update(method_assigns(h, {p_["d"]: val(a_) for p_, a_ in zip(h.params, n.get("a", []))}, depth + 1))
+    return out
+
+
 def rule_fence(ck, facts):
     R = "E14.fence-guarded"
     fns = [f for f in facts.functions if f.cls == "FEAT::ThreadFence"]
@@ -709,15 +815,44 @@ def rule_fence(ck, facts):
         ck.incomplete(R, "ThreadFence state member(s) %s are std::atomic: the lock-based discipline rules do not model atomics" % sorted(atomic))
         return
     mutex_of = {}
+    api = ("wait", "open", "close")
+    ext_called = {n.get("callee") for g in facts.functions if g.cls != "FEAT::ThreadFence" for n in g.nodes() if n.get("k") == "MCall" and n.get("ccls") == "FEAT::ThreadFence"}
+
+    def held_by_callers(f, depth=0):
+        """private helper: the fence mutex held at every call of f inside the class (transitively);
+        None if f can be entered from outside or is not called at all"""
+        if f.name in api or f.qn in ext_called or depth > 2:
+            return None
+        sites = [(g, n) for g in fns if g is not f for n in g.nodes()
+                 if n.get("k") == "MCall" and (n.get("obj") or {}).get("k") == "This" and (n.get("cfull") == f.full or n.get("callee") == f.qn)]
+        if not sites:
+            return None
+        got = set()
+        for g, call in sites:
+            if g.d.get("ctor") or g.d.get("dtor"):
+                continue            # the object is not shared yet / any more
+            gx = FX(g)
+            m = lock_held_at(gx, call, lambda e, g=g: this_field(e) is not None and "std::mutex" in g.ntype(e))
+            if m is None:
+                m = held_by_callers(g, depth + 1)
+            if m is None:
+                return None
+            got.add(m)
+        return sorted(got)[0] if len(got) == 1 else None
     for name, f in sorted(meth.items()):
         fx = FX(f)
         mp = lambda e, f=f: this_field(e) is not None and "std::mutex" in f.ntype(e)
         per_field = {}
+        via_callers = None
         for n in f.nodes():
             fld = this_field(n)
             if n.get("k") != "Member" or fld not in state:
                 continue
             m = lock_held_at(fx, n, mp)
+            if m is None:
+                # guard moved into the callers: a private helper only ever called with the lock held
+                via_callers = via_callers if via_callers is not None else (held_by_callers(f) or False)
+                m = via_callers or None
             per_field.setdefault(fld, []).append((m, n.get("l")))
         for fld, acc in sorted(per_field.items()):
             bad = [l for m, l in acc if m is None]
@@ -727,8 +862,9 @@ def rule_fence(ck, facts):
                     ck.incomplete(R, "ThreadFence::%s/%s: no modelled lock held at line(s) %s, but %s" % (name, fld, bad, um))
                     continue
             ck.ob(R, "ThreadFence::%s/%s" % (name, fld), not bad,
-                  "state member %s is accessed in ThreadFence::%s at line(s) %s without a lock on the fence mutex that dominates the access and is still held" % (fld, name, bad) if bad
-                  else "every access to %s in %s() is dominated by a live lock on %s" % (fld, name, acc[0][0]), f.file, f.line)
+                  "state member %s is accessed in ThreadFence::%s at line(s) %s without a lock on the fence mutex that dominates the access and is still held%s" % (
+                      fld, name, bad, "" if name in api else " (neither here nor at every call of this helper inside the class)") if bad
+                  else "every access to %s in %s() is dominated by a live lock on %s%s" % (fld, name, acc[0][0], " (held by the callers of this private helper)" if via_callers else ""), f.file, f.line)
             for m, l in acc:
                 if m is not None:
                     mutex_of.setdefault(name, set()).add(m)
@@ -751,8 +887,10 @@ def rule_fence(ck, facts):
             # wait(lock, pred) == while(!pred()) wait(lock)
             lam = strip(c["a"][1])
             body = [x for x in (lam.get("body") or {}).get("s", [])] if lam.get("k") == "Lambda" and (lam.get("body") or {}).get("k") == "Block" else []
-            reads = {this_field(x) for x in walk(lam)} & state if lam.get("k") == "Lambda" else set()
-            if len(body) == 1 and body[0].get("k") == "Return" and reads:
+            # the predicate must read the live state member (through the captured `this`), not a copy
+            # taken when the lambda was created (init-capture by value)
+            reads = {this_field(x) for x in walk(body[0].get("e") or {})} & state if len(body) == 1 and body[0].get("k") == "Return" else set()
+            if len(body) == 1 and body[0].get("k") == "Return" and reads and c.get("callee", "").split("<")[0] == "std::condition_variable::wait":
                 pred_cond = {"k": "Un", "op": "!", "e": body[0]["e"], "t": body[0]["e"].get("t")}
                 ck.ob(R, "ThreadFence::wait/predicate-loop", True,
                       "condition_variable::wait(lock, pred) re-tests the predicate `%s` (reads %s) after every wake-up" % (render(body[0]["e"]), sorted(reads)), w.file, c.get("l"))
@@ -794,9 +932,9 @@ def rule_fence(ck, facts):
             init = {i["member"]: i["init"] for i in ctor.d.get("inits", []) or [] if i.get("member") and i.get("init")}
             for who, fn, want in (("ThreadFence()", ctor, 1), ("close", meth["close"], 1), ("open", meth["open"], 0)):
                 try:
-                    assign = init if fn is ctor else straight_assigns(fn)
-                    if fn is not ctor and opaque_calls(FX(fn)):
-                        raise Unknown("helper calls in %s()" % who)
+                    assign = init if fn is ctor else method_assigns(fn)
+                    if fn is not ctor and [x for x in opaque_calls(FX(fn)) if not (x.get("k") == "MCall" and (x.get("obj") or {}).get("k") == "This")]:
+                        raise Unknown("`this` is handed to another function in %s()" % who)
                     b = blocked(assign, fn)
                     ck.ob(R, "ThreadFence/%s" % who, b == want,
                           "after %s the wait predicate `%s` is %s (%s expected: the fence must %s)" % (who, render(pred_cond), bool(b), bool(want), "block" if want else "let waiters pass"),
@@ -809,7 +947,7 @@ def rule_fence(ck, facts):
     rets = [n for n in walk(w.body, prune=lambda x: x.get("k") == "Lambda") if n.get("k") == "Return"]
     op = meth["open"]
     try:
-        oas = straight_assigns(op)
+        oas = method_assigns(op)
         rf = this_field(rets[0].get("e")) if len(rets) == 1 else None
         if rf is None:
             # e.g. a local copy taken under the lock
@@ -1029,25 +1167,95 @@ def compile_model(facts):
         for n in f.nodes():
             if n.get("k") == "Ref" and n.get("dk") == "enum" and "ThreadingStrategy::" in (n.get("qn") or ""):
                 enum[n["qn"].rsplit("::", 1)[-1]] = int(n["v"])
-    # field the Worker receives as num_workers at the assemble() site is found by the caller;
-    # here: which switch groups call a member function that assigns an unsigned count field
-    sws = [n for n in comp.nodes() if n.get("k") == "Switch"]
-    if len(sws) != 1:
-        raise Unknown("_compile: expected one switch over the strategy")
-    assigns = {}
+    # which unsigned count fields can the member functions assign that _compile calls when the
+    # strategy member has value v at its decision points?  The body is specialised per value: switch
+    # groups, if-chain branches and selector constants decided by v are replaced by the branch taken
+    # (assignments to the strategy inside _compile - resolution of `automatic` - are not followed: v
+    # is the value the work distribution is built for, which is the value assemble() hands on).
+    sfields = set()
+    for n in comp.nodes():
+        if n.get("k") in ("If", "Switch"):
+            for x in walk(n["c"]):
+                f_ = this_field(x)
+                if f_ is not None and x.get("k") == "Member" and "ThreadingStrategy" in comp.ntype(x):
+                    sfields.add(f_)
+    if not sfields:
+        # the decision may sit in a helper: every strategy-typed member is a candidate
+        for f in facts.functions:
+            if f.cls == comp.cls:
+                for x in f.nodes():
+                    if x.get("k") == "Member" and this_field(x) and "ThreadingStrategy" in f.ntype(x):
+                        sfields.add(this_field(x))
+    if len(sfields) != 1:
+        raise Unknown("_compile: strategy member not identified (%s)" % sorted(sfields))
+    sfield = sfields.pop()
+    by_name = {}
     for f in facts.functions:
-        if f.cls == comp.cls:
-            s = {this_field(n["lhs"]) for n in f.nodes() if n.get("k") == "Assign" and this_field(n["lhs"])}
-            assigns[f.name] = s
+        if f.cls == comp.cls and f.body is not None:
+            by_name.setdefault(f.full, f)
+    decided = {"n": 0}
+
+    def assigned(fn, env, depth, seen):
+        """fields assigned on the statements of fn that remain after specialisation, member helpers included"""
+        out = set()
+        inits = single_def_inits(fn)
+
+        def val(c):
+            e2 = Env(fields=env.fields, consts=env.consts)
+            e2.inits = inits
+            try:
+                return ev(fn, c, e2)
+            except Unknown:
+                return None
+
+        def visit(st):
+            if st is None:
+                return
+            k = st.get("k")
+            if k == "If":
+                v = val(st["c"])
+                if v is not None:
+                    decided["n"] += 1
+                    visit(st.get("then") if v else st.get("else"))
+                    return
+            if k == "Switch":
+                v = val(st["c"])
+                if v is not None:
+                    decided["n"] += 1
+                    segs = switch_segments(st)
+                    grp = next((ss for ls, ss in segs if v in ls), None)
+                    if grp is None:
+                        grp = next((ss for ls, ss in segs if "default" in ls), [])
+                    for x in grp:
+                        visit(x)
+                    return
+            if k == "Cond":
+                v = val(st["c"])
+                if v is not None:
+                    visit(st.get("then") if v else st.get("else"))
+                    return
+            if k == "Assign" and this_field(st["lhs"]):
+                r_ = strip(st["rhs"])
+                if not (st.get("op") == "=" and ((r_.get("k") == "Int" and int(r_["v"]) == 0) or (r_.get("k") == "Bool" and not r_["v"]))):
+                    out.add(this_field(st["lhs"]))      # `count = 0` cannot make a count non-zero
+            if k == "Un" and st.get("op") in ("++", "--") and this_field(st.get("e")):
+                out.add(this_field(st["e"]))
+            if k == "MCall" and (st.get("obj") or {}).get("k") == "This":
+                h = by_name.get(st.get("cfull")) or next((f for f in by_name.values() if f.qn == st.get("callee")), None)
+                if h is None or depth >= 3:
+                    raise Unknown("_compile: member helper `%s` not followed" % st.get("callee"))
+                if h.full not in seen:
+                    out.update(assigned(h, env, depth + 1, seen | {h.full}))
+            for c in children(st):
+                visit(c)
+        visit(fn.body)
+        return out
     can = {}
-    for labels, stmts in switch_segments(sws[0]):
-        called = set()
-        for st in stmts:
-            for n in walk(st):
-                if n.get("k") == "MCall" and (n.get("obj") or {}).get("k") == "This":
-                    called.add(n.get("n"))
-        for l in labels:
-            can[l] = set().union(*[assigns.get(c, set()) for c in called]) if called else set()
+    for name, v in enum.items():
+        env = Env(fields={sfield: v})
+        can[v] = assigned(comp, env, 0, {comp.full})
+    if decided["n"] == 0:
+        raise Unknown("_compile: no decision over the strategy member `%s` found" % sfield)
     return enum, can, comp
 
 
@@ -1094,16 +1302,7 @@ def assertions_reached(wm, fn, env):
                     out.append((n, ev(fn, n["a"][0], env)))
                 except Unknown:
                     out.append((n, None))
-        if blk.get("cond") is not None and len(blk.get("succ", [])) == 2:
-            try:
-                v = ev(fn, fn.by_id(blk["cond"]), env)
-                s = blk["succ"][0 if v else 1]
-                if s is not None:
-                    st.append(s)
-                continue
-            except Unknown:
-                pass
-        st.extend(fx.cfg.succ.get(b, []))
+        st.extend(eval_succ(fx, blk, env))
     return out
 
 
@@ -1138,34 +1337,67 @@ def rule_dispatch(ck, job, vctx, inv_enum):
                   fn.file, r["line"])
 
 
+def combine_sites(wm, fn, depth=0, chain=()):
+    """task->combine() calls executed by fn, directly or inside member helpers called on `this`
+    (bounded depth): [(function, call node, chain of (caller function, helper call node))]; raises
+    Unknown for helpers that cannot be followed and perform task calls"""
+    out = []
+    for n in fn.nodes():
+        if task_call(n, "combine"):
+            out.append((fn, n, chain))
+        elif n.get("k") == "MCall" and (n.get("obj") or {}).get("k") == "This" and n.get("n") != "operator()":
+            h = find_method(fn.cls, n)
+            if h is None or h.cfg is None:
+                raise Unknown("member helper `%s` (line %s) is not in the fact base" % (n.get("callee"), n.get("l")))
+            if not any(task_call(x, "combine") for x in h.nodes()) and not any(x.get("k") == "MCall" and (x.get("obj") or {}).get("k") == "This" for x in h.nodes()):
+                continue
+            if h.d.get("virtual") or depth >= 2 or any(c_[0].full == h.full for c_ in chain) or h.full == fn.full:
+                if has_sync_events(h):
+                    raise Unknown("member helper `%s` (line %s) is virtual, recursive or nested too deep" % (n.get("callee"), n.get("l")))
+                continue
+            out.extend(combine_sites(wm, h, depth + 1, chain + ((fn, n),)))
+    return out
+
+
 def rule_combine(ck, job, vctx):
     R = "E14.combine-locked"
     wm = job.wm
     mfield = wm.field_of.get("thread_mutex")
+    mp = lambda e: this_field(e) == mfield
     for variant in sorted(vctx):
         fn = wm.methods[variant]
-        fx = wm.fx(fn)
-        calls = [n for n in fn.nodes() if task_call(n, "combine")]
+        try:
+            calls = combine_sites(wm, fn)
+        except Unknown as e:
+            ck.incomplete(R, "%s::%s: %s" % (job.name, variant, e))
+            continue
         maxn = max(c[1] for c in vctx[variant])
-        for k, c in enumerate(calls):
-            mp = lambda e: this_field(e) == mfield
-            held = lock_held_at(fx, c, mp)
+        for k, (cfn, c, chain) in enumerate(calls):
+            # the lock may be held at the call itself (same function, helper included) or at the call
+            # of the helper that contains it
+            held = lock_held_at(wm.fx(cfn), c, mp)
+            for hfn, hcall in chain:
+                held = held or lock_held_at(wm.fx(hfn), hcall, mp)
             ok = held is not None or maxn <= 1
             key = "%s::%s/combine%s" % (job.name, variant, "" if len(calls) == 1 else "#%d" % k)
+            where = "" if not chain else " (inside the helper %s called at line %s)" % (cfn.name, chain[0][1].get("l"))
             if not ok:
-                um = unmodelled_locking(fx, mp)
+                um = None
+                followed = [hc for _, hc in chain]
+                for f_ in [cfn] + [hf for hf, _ in chain]:
+                    um = um or unmodelled_locking(wm.fx(f_), mp, followed=followed)
                 if um is None and any(s_.unevaluated for s_ in job.sites):
                     um = "the worker-count contexts are over-approximated (guards %s not evaluated)" % [u for s_ in job.sites for u in s_.unevaluated]
                 if um is not None:
                     ck.incomplete(R, "%s: no modelled lock held at combine() (line %s), but %s" % (key, c.get("l"), um))
                     continue
             if held is not None:
-                d = "task->combine() is called with a live lock on the shared %s" % held
+                d = "task->combine()%s is called with a live lock on the shared %s" % (where, held)
             elif maxn <= 1:
                 d = "task->combine() without lock: %s is only reachable with num_workers <= 1 (%d contexts)" % (variant, len(vctx[variant]))
             else:
-                d = "task->combine() at line %s is called without a lock on this->%s being held, but %s runs with up to %d concurrent workers: two threads reduce into the job object at the same time" % (c.get("l"), mfield, variant, maxn)
-            ck.ob(R, key, ok, d, fn.file, c.get("l"))
+                d = "task->combine() at line %s%s is called without a lock on this->%s being held, but %s runs with up to %d concurrent workers: two threads reduce into the job object at the same time" % (c.get("l"), where, mfield, variant, maxn)
+            ck.ob(R, key, ok, d, cfn.file, c.get("l"))
     R = "E14.shared-mutex"
     for s in job.sites:
         a = strip(s.arg.get("thread_mutex") or {})
@@ -1219,10 +1451,25 @@ def find_method(cls, call):
     return c[0] if len(c) == 1 else None
 
 
-class Proto:
-    """extracts the ordered fence events of a statement list of one role"""
+def is_int_type(t):
+    t = (t or "").replace("const ", "").strip()
+    return bool(re.match(r"^(FEAT::Index|std::size_t|size_t|unsigned long|unsigned int|unsigned|int|long|std::uint(32|64)_t|Index)$", t))
 
-    def __init__(self, fx, fences_field, sym, own=None, k_sym=None, skip=()):
+
+class Proto:
+    """extracts the ordered fence events of a statement list of one role.
+
+    Member helpers called on `this` are inlined (bounded depth, non-virtual, non-recursive) with their
+    parameters bound to the caller's arguments: integer parameters to the sympy form of the argument,
+    ThreadFence reference parameters to the caller's fence expression, any other parameter to the
+    argument node (status flags handed to open()).  Events of an inlined helper carry
+      inlined = True, via = the call statement in the outermost analysed function, must = the event is
+      passed on every normally returning path through the helper(s) (paths ending in `return false`
+      exempt), kloop = (fx, loop) of the counting loop whose variable the symbol k stands for.
+    With `env` given, If / Switch statements whose condition the environment decides are replaced by
+    the branch taken (switch, if-chain and named selector constants are the same decision table)."""
+
+    def __init__(self, fx, fences_field, sym, own=None, k_sym=None, skip=(), env=None):
         self.fx = fx
         self.fn = fx.fn
         self.ff = fences_field
@@ -1231,11 +1478,65 @@ class Proto:
         self.k_sym = k_sym
         self.skip = set(skip)
         self.depth = 0
+        self.env = env
+        self.bind = {}            # parameter decl id -> (caller Proto, argument node, call node)
+        self.kloop_in = None      # (fx, loop) standing behind k_sym in the caller at the call site
+        self.decided = []         # conditions decided by env
         self.sym[("inits",)] = single_def_inits(fx.fn)
 
+    # -- symbol tables / parameter binding ---------------------------------------------------------
+    def site_sym(self, node):
+        """(sym, kloop) at `node`: the innermost enclosing counting loop variable is the symbol k"""
+        sym = dict(self.sym)
+        kloop = self.kloop_in
+        if self.k_sym is not None:
+            loops = [lp for lp in self.fx.enclosing_loops(node) if loop_normal(self.fx, lp)]
+            if loops:
+                sym[("l", loop_normal(self.fx, loops[0])[0])] = self.k_sym
+                kloop = (self.fx, loops[0])
+        return sym, kloop
+
+    def fence_class(self, expr, at):
+        """(classification, kloop) of a fence expression evaluated at node `at`; reference parameters
+        of an inlined helper are classified in the caller"""
+        o = resolve_alias(self.fx, expr)
+        if o is not None and o.get("k") == "Ref" and o.get("dk") == "param" and o.get("d") in self.bind:
+            parent, arg, call = self.bind[o["d"]]
+            return parent.fence_class(arg, call)
+        sym, kloop = self.site_sym(at)
+        return classify_fence(self.fx, o, self.ff, sym, own=self.own), kloop
+
+    def bound_arg(self, n):
+        """argument node a (by-value / reference) parameter stands for, through the inlining chain"""
+        n = strip(n) if n is not None else None
+        pr = self
+        hops = 0
+        while n is not None and n.get("k") == "Ref" and n.get("dk") == "param" and n.get("d") in pr.bind and hops < 4:
+            pr, n, _ = pr.bind[n["d"]]
+            n = strip(n)
+            hops += 1
+        return n
+
+    def form(self, node, top):
+        """normal form of an index expression occurring in this (possibly inlined) function; `top`
+        computes the form of a node of the outermost analysed function; integer parameters of inlined
+        helpers stand for the form of the caller's argument"""
+        if self.depth == 0:
+            return top(node)
+        n_ = strip(node)
+        if n_.get("k") == "Ref" and n_.get("dk") == "param" and n_.get("d") in self.bind:
+            parent, arg, _ = self.bind[n_["d"]]
+            return parent.form(arg, top)
+        sym = dict(self.sym)
+        for x in walk(node):
+            if x.get("k") == "Ref" and x.get("dk") == "param" and x.get("d") in self.bind:
+                parent, arg, _ = self.bind[x["d"]]
+                sym[("l", x["d"])] = parent.form(arg, top)
+        return sx(self.fn, node, sym)
+
     def helper_events(self, n, out):
-        """member helper called on `this`: ignored when it performs no synchronisation, inlined when
-        it takes no arguments, otherwise not modelled"""
+        """member helper called on `this`: ignored when it performs no synchronisation, otherwise its
+        event sequence is inlined with the parameters bound"""
         if n.get("n") in self.skip:
             return
         h = find_method(self.fn.cls, n)
@@ -1243,15 +1544,51 @@ class Proto:
             raise Unknown("member helper `%s` (line %s) is not in the fact base" % (n.get("callee"), n.get("l")))
         if not has_sync_events(h):
             return
-        if n.get("a") or self.depth >= 2 or h.body is None:
-            raise Unknown("member helper `%s` (line %s) performs fence/join/task operations and takes arguments: not modelled" % (n.get("callee"), n.get("l")))
-        sub = Proto(FX(h), self.ff, self.sym, own=self.own, k_sym=self.k_sym, skip=self.skip)
+        if self.depth >= 2 or h.body is None or h.cfg is None:
+            raise Unknown("member helper `%s` (line %s) performs fence/join/task operations at call depth > 2: not modelled" % (n.get("callee"), n.get("l")))
+        if h.d.get("virtual"):
+            raise Unknown("member helper `%s` (line %s) is virtual: the callee is not known statically" % (n.get("callee"), n.get("l")))
+        if h.full == self.fn.full:
+            raise Unknown("recursive helper `%s`" % n.get("callee"))
+        args = n.get("a", [])
+        if len(args) != len(h.params):
+            raise Unknown("member helper `%s` (line %s): %d arguments for %d parameters" % (n.get("callee"), n.get("l"), len(args), len(h.params)))
+        hfx = FX(h)
+        sub = Proto(hfx, self.ff, {k_: v_ for k_, v_ in self.sym.items() if k_ and k_[0] in ("f", "v")}, own=self.own, k_sym=self.k_sym, skip=self.skip, env=None)
         sub.depth = self.depth + 1
-        for e_ in sub.stmts(h.body.get("s", [])):
-            for x in all_events([e_]):
-                x.setdefault("fx", sub.fx)
-                x["inlined"] = True
-            out.append(e_)
+        csym, ckloop = self.site_sym(n)
+        sub.kloop_in = ckloop
+        assigned = {strip(x["lhs"]).get("d") for x in h.nodes() if x.get("k") == "Assign" and strip(x["lhs"]).get("k") == "Ref"} | \
+                   {strip(x["e"]).get("d") for x in h.nodes() if x.get("k") == "Un" and x.get("op") in ("++", "--") and strip(x["e"]).get("k") == "Ref"}
+        for p_, a_ in zip(h.params, args):
+            sub.bind[p_["d"]] = (self, a_, n)
+            if is_int_type(h.type(p_["t"])) and p_["d"] not in assigned:
+                try:
+                    sub.sym[("l", p_["d"])] = sx(self.fn, a_, csym)
+                except Unknown:
+                    pass
+        items = sub.stmts(h.body.get("s", []))
+        nr = hfx.cfg.noreturn_blocks()
+        fails = [x["i"] for x in h.nodes() if x.get("k") == "Return" and strip(x.get("e") or {}).get("k") == "Bool" and strip(x["e"])["v"] is False]
+        for x in all_events(items):
+            if x.get("node") is None:
+                continue
+            at = x["via"] if x.get("inlined") else x["node"]
+            lps = hfx.enclosing_loops(at)
+            hb_ = hfx.header_block(lps[-1]) if lps else None
+            if lps and hb_ is None:
+                must = False
+            elif lps:
+                must = hfx.reach((hfx.cfg.entry, 0), target_blocks=[hfx.cfg.exit], avoid_blocks=set([hb_]) | nr, avoid_stmts=fails) is None
+            else:
+                must = at.get("i") is not None and hfx.cfg.block_of(at["i"]) is not None and \
+                    hfx.reach((hfx.cfg.entry, 0), target_blocks=[hfx.cfg.exit], avoid_blocks=nr, avoid_stmts=[at["i"]] + fails) is None
+            x["must"] = bool(x.get("must", True) and must)
+            x.setdefault("fx", hfx)
+            x.setdefault("chain", []).insert(0, n)
+            x["inlined"] = True
+            x["via"] = n
+        out.extend(items)
 
     def _only_exit(self, st):
         st_ = st
@@ -1272,20 +1609,26 @@ class Proto:
                 raise Unknown("a fence is passed to `%s` (line %s): not modelled" % (n.get("callee"), n.get("l")))
             if fence_call(n):
                 kind = n["callee"].rsplit("::", 1)[-1]
-                sym = dict(self.sym)
-                if self.k_sym is not None:
-                    loops = [lp for lp in self.fx.enclosing_loops(n) if loop_normal(self.fx, lp)]
-                    if loops:
-                        sym[("l", loop_normal(self.fx, loops[0])[0])] = self.k_sym
-                f = fence_of(self.fx, n, self.ff, sym, own=self.own)
-                ev_ = {"k": kind, "f": f, "node": n, "l": n.get("l"), "fx": self.fx}
+                f, kloop = self.fence_class(n.get("obj"), n)
+                ev_ = {"k": kind, "f": f, "node": n, "l": n.get("l"), "fx": self.fx, "kloop": kloop, "proto": self}
                 if kind == "open":
-                    ev_["arg"] = strip(n["a"][0]) if n.get("a") else None
+                    ev_["arg"] = self.bound_arg(n["a"][0]) if n.get("a") else None
                 out.append(ev_)
             elif n.get("k") == "MCall" and n.get("callee") == "std::thread::join":
-                out.append({"k": "join", "node": n, "l": n.get("l")})
+                out.append({"k": "join", "node": n, "l": n.get("l"), "fx": self.fx})
             elif task_call(n):
-                out.append({"k": "task", "name": n["n"], "node": n, "l": n.get("l")})
+                out.append({"k": "task", "name": n["n"], "node": n, "l": n.get("l"), "fx": self.fx, "proto": self})
+
+    def decide(self, c):
+        """truth value of a condition under the partial-evaluation environment, or None"""
+        if self.env is None:
+            return None
+        try:
+            v = ev(self.fn, c, self.env)
+        except Unknown:
+            return None
+        self.decided.append(c)
+        return v
 
     def stmts(self, sts):
         out = []
@@ -1315,48 +1658,55 @@ class Proto:
                 return [{"k": "loop", "loop": st, "items": inner, "l": st.get("l")}]
             return []
         if k == "If":
+            v = self.decide(st["c"])
+            if v is not None:
+                return self.stmt(st.get("then") if v else st.get("else"))
             ce = []
             self.expr_events(st["c"], ce)
             ex = self._only_exit(st.get("then"))
             if ex is not None and st.get("else") is None:
-                c = strip(st["c"])
-                if len(ce) == 1 and ce[0]["k"] == "wait":
-                    neg = c.get("k") == "Un" and c["op"] == "!" and strip(c["e"]) is ce[0]["node"]
-                    rv = strip(ex.get("e") or {})
-                    if neg and ex["k"] == "Return" and rv.get("k") == "Bool" and rv["v"] is False:
-                        ce[0]["checked"] = "return-false"
-                    else:
-                        ce[0]["checked"] = "odd"
-                    return ce
-                if ce:
-                    raise Unknown("fence events in the condition at line %s" % st.get("l"))
-                return [{"k": "exit_if", "cond": st["c"], "exit": ex["k"], "l": st.get("l")}]
+                # `if(!fence.wait()) return false;` / `if(!okay) break;`: the events of the condition,
+                # then a conditional exit
+                return ce + [{"k": "exit_if", "cond": st["c"], "exit": ex["k"], "l": st.get("l")}]
             th = self.stmt(st.get("then"))
             el = self.stmt(st.get("else"))
             if all(x["k"] == "task" for x in th + el):
                 return ce + th + el
             return ce + [{"k": "if", "cond": st["c"], "then": th, "else": el, "l": st.get("l")}]
         if k == "Switch":
+            v = self.decide(st["c"])
+            if v is not None:
+                segs = switch_segments(st)
+                grp = next((ss for ls, ss in segs if v in ls), None)
+                if grp is None:
+                    grp = next((ss for ls, ss in segs if "default" in ls), [])
+                return self.stmts(grp)
             inner = []
             self.expr_events(st, inner)
             if inner:
-                raise Unknown("fence events inside a nested switch at line %s" % st.get("l"))
+                raise Unknown("fence events inside a switch at line %s whose selector `%s` is not decided by the strategy" % (st.get("l"), render(st["c"])))
             return []
         out = []
         self.expr_events(st, out)
-        for e_ in out:
-            if e_["k"] == "wait" and "checked" not in e_:
-                # result stored or combined into a variable?
-                p = self.fx.parent.get(id(e_["node"]))
-                while p is not None and p.get("k") in ("Bin", "Cast", "Un"):
-                    p = self.fx.parent.get(id(p))
-                if p is not None and p.get("k") == "Assign" and strip(p["lhs"]).get("k") == "Ref":
-                    e_["checked"] = ("var", strip(p["lhs"])["d"])
-                elif p is not None and p.get("k") == "Var":
-                    e_["checked"] = ("var", p["d"])
-                else:
-                    e_["checked"] = None
         return out
+
+
+def cfg_stmt(fx, e):
+    """the statement of fx's function that stands for event e in CFG path rules: the event's own node,
+    or - for an event inlined from a member helper - the helper call, provided the event is passed on
+    every normally returning path through the helper"""
+    n = e.get("node")
+    if n is not None and fx.owns(n):
+        return n
+    for c in e.get("chain", []):
+        if fx.owns(c):
+            if not e.get("must"):
+                raise Unknown("%s at line %s is performed conditionally inside the member helper `%s`; path rules over the caller are not evaluated" % (
+                    e.get("k") if e.get("k") != "task" else "task->%s()" % e.get("name"), e.get("l"), c.get("callee", "").rsplit("::", 1)[-1]))
+            if c.get("i") is None or fx.cfg.block_of(c["i"]) is None:
+                raise Unknown("helper call at line %s is not a CFG statement" % c.get("l"))
+            return c
+    raise Unknown("event at line %s does not belong to the analysed function" % e.get("l"))
 
 
 def flatten_round(items):
@@ -1397,18 +1747,20 @@ def round_skips(fx, round_loop, seq, role):
     fails = [n["i"] for n in fx.fn.nodes() if n.get("k") == "Return" and strip(n.get("e") or {}).get("k") == "Bool" and strip(n["e"])["v"] is False]
     nr = fx.cfg.noreturn_blocks()
     out = []
+    if not fx.owns(round_loop):
+        raise Unknown("the round loop at line %s lives in a helper; per-iteration must-pass not evaluated" % round_loop.get("l"))
     for e in seq:
         if e["k"] not in ("wait", "open", "close"):
             continue
-        if e.get("inlined") or e.get("fx") is not fx:
-            raise Unknown("fence event at line %s lives in a helper; per-iteration must-pass not evaluated" % e.get("l"))
-        if e.get("forall") is not None:
+        if e.get("forall") is not None and fx.owns(e["forall"]):
+            if not fx.owns(e["node"]):
+                cfg_stmt(fx, e)         # an inlined event must be unconditional inside its helper
             hb_ = fx.header_block(e["forall"])
             if hb_ is None:
                 raise Unknown("for-all loop header not found")
             r = fx.reach((body_entry, 0), target_blocks=[H], avoid_blocks=set([hb_]) | nr, avoid_stmts=fails)
         else:
-            r = fx.reach((body_entry, 0), target_blocks=[H], avoid_blocks=nr, avoid_stmts=[e["node"]["i"]] + fails)
+            r = fx.reach((body_entry, 0), target_blocks=[H], avoid_blocks=nr, avoid_stmts=[cfg_stmt(fx, e)["i"]] + fails)
         if r is not None:
             out.append("the %s can start the next round without having passed %s(%s) at line %s" % (role, e["k"], e["f"] if isinstance(e["f"], str) else e["f"][1], e["l"]))
     return out
@@ -1535,12 +1887,25 @@ def worker_sym(job, site):
     return sym
 
 
-def master_segments(job):
-    fxa = job.assemble
-    sws = [n for n in fxa.fn.nodes() if n.get("k") == "Switch"]
-    if len(sws) != 1:
-        raise Unknown("assemble(): expected one switch over the threading strategy, found %d" % len(sws))
-    return sws[0], switch_segments(sws[0])
+def continuation(fx, stmt):
+    """statements executed after `stmt` up to the end of the function: the rest of its block, then the
+    rest of the enclosing blocks (the construction may sit in the else-branch of an early-out test)"""
+    out = []
+    child = stmt
+    for p in fx.ancestors(stmt):
+        k = p.get("k")
+        if k == "Block":
+            ss = p.get("s", [])
+            idx = next((i for i, x in enumerate(ss) if x is child), None)
+            if idx is None:
+                raise Unknown("statement order around line %s not recovered" % stmt.get("l"))
+            out.extend(ss[idx + 1:])
+        elif k in ("For", "While", "Do", "ForRange", "Switch", "Lambda"):
+            raise Unknown("the worker threads are created inside a %s statement (line %s)" % (k, p.get("l")))
+        elif k not in ("If", "Try", "Case", "Default"):
+            raise Unknown("the worker threads are created inside a %s node (line %s)" % (k, p.get("l")))
+        child = p
+    return out
 
 
 def rule_protocol(ck, job, vctx, enum, can, inv_enum):
@@ -1554,13 +1919,8 @@ def rule_protocol(ck, job, vctx, enum, can, inv_enum):
     ffield = this_field(site.arg.get("thread_fences"))
     nfield = this_field(site.arg.get("num_workers"))
     sfield = this_field(site.arg.get("strategy"))
-    try:
-        sw, segs = master_segments(job)
-    except Unknown as e:
-        ck.incomplete(R, "%s: %s" % (job.name, e))
-        return
-    if sfield is None or not any(this_field(x) == sfield for x in walk(sw["c"])):
-        ck.incomplete(R, "%s: assemble() switches on `%s` but hands `%s` to the workers as their strategy" % (job.name, render(sw["c"]), render(site.arg.get("strategy"))))
+    if sfield is None:
+        ck.incomplete(R, "%s: assemble() hands `%s` to the workers as their strategy, not a member of the assembler" % (job.name, render(site.arg.get("strategy"))))
         return
     # the id argument as a function of the creation loop variable, and the creation loop range
     cl = [lp for lp in fxa.enclosing_loops(site.node) if loop_normal(fxa, lp)]
@@ -1595,38 +1955,37 @@ def rule_protocol(ck, job, vctx, enum, can, inv_enum):
         return True
 
     wsym = worker_sym(job, site)
-    seg_of = {}
-    for labels, stmts in segs:
-        for l in labels:
-            seg_of[l] = stmts
+    try:
+        mstmts = continuation(fxa, cl[0])
+    except Unknown as e:
+        ck.incomplete(R, "%s: %s" % (job.name, e))
+        return
     strategies = sorted(v for v in enum.values() if nfield in can.get(v, can.get("default", set())))
     for st in strategies:
         sname = inv_enum.get(st, str(st))
         variants = sorted({v for v, cs in vctx.items() for c in cs if c[2] == st and c[3] == "assemble"})
-        try:
-            env_sw = Env(fields={sfield: st}, consts=wm.consts)
-            sel = ev(fxa.fn, sw["c"], env_sw)
-        except Unknown as e:
-            ck.incomplete(R, "%s: switch condition of assemble() not evaluable for strategy %s (%s)" % (job.name, sname, e))
-            continue
-        stmts = seg_of.get(sel, seg_of.get("default"))
         for variant in variants:
             key = "strategy=%s/need_scatter=%s/%s" % (sname, wm.flag("need_scatter"), variant)
-            loc = (fxa.fn.file, stmts[0].get("l") if stmts else fxa.fn.line)
+            loc = (fxa.fn.file, mstmts[0].get("l") if mstmts else fxa.fn.line)
             try:
-                if stmts is None:
-                    raise Unknown("no switch group for strategy %s" % sname)
-                mp = Proto(fxa, ffield, {}, own=None, k_sym=K)
-                mitems = mp.stmts(stmts)
+                # the master's part after the creation of the threads, specialised for the strategy:
+                # switch groups / if-chain branches / selector constants decided by the strategy value
+                # are replaced by the branch taken
+                env_m = Env(fields={sfield: st}, consts=wm.consts)
+                env_m.inits = single_def_inits(fxa.fn)
+                mp = Proto(fxa, ffield, {}, own=None, k_sym=K, env=env_m)
+                mitems = mp.stmts(mstmts)
+                first = next((x for x in all_events(mitems) if x.get("l") is not None), None)
+                if first is not None:
+                    loc = (fxa.fn.file, first.get("l"))
                 # master fences indexed like the worker ids are the workers' own fences
                 def relabel(items):
                     for it in items:
                         if it["k"] in ("loop",):
                             relabel(it["items"])
                         elif it["k"] in ("wait", "open", "close") and isinstance(it["f"], tuple):
-                            fx_ = it.get("fx", fxa)
-                            lp = [l_ for l_ in fx_.enclosing_loops(it["node"]) if loop_normal(fx_, l_)]
-                            if lp and it["f"][2].has(K) and forall_ok(fx_, lp[0], it["f"][2]):
+                            kl = it.get("kloop")
+                            if kl is not None and it["f"][2].has(K) and forall_ok(kl[0], kl[1], it["f"][2]):
                                 it["f"] = "OWN"
                 relabel(mitems)
                 wfn = wm.methods[variant]
@@ -1711,19 +2070,32 @@ def work_loop(fx):
 
 
 def eq_tests(fx, loop_var):
-    """[(block, other local decl id, true succ, false succ)] for branch conditions `elem == X`"""
+    """[(block, other local decl id, successor taken when elem == X, successor taken otherwise)] for
+    branch conditions `elem == X`, `X == elem`, `elem != X` (edges swapped), `!(...)` (edges swapped),
+    also through a const bool local holding the comparison"""
     out = []
+    inits = single_def_inits(fx.fn)
     for b in fx.cfg.blocks.values():
         if b.get("cond") is None or len(b.get("succ", [])) != 2:
             continue
         c = strip(fx.fn.by_id(b["cond"]) or {})
-        if c.get("k") == "Ref" and c.get("dk") == "local":
-            c = strip(single_def_inits(fx.fn).get(c["d"]) or {})
-        if c.get("k") == "Bin" and c.get("op") == "==":
+        flip = False
+        hops = 0
+        while hops < 6:
+            hops += 1
+            if c.get("k") == "Ref" and c.get("dk") == "local" and c.get("d") in inits:
+                c = strip(inits[c["d"]])
+            elif c.get("k") == "Un" and c.get("op") == "!":
+                c, flip = strip(c["e"]), not flip
+            else:
+                break
+        if c.get("k") == "Bin" and c.get("op") in ("==", "!="):
+            if c["op"] == "!=":
+                flip = not flip
             l, r = strip(c["lhs"]), strip(c["rhs"])
             for a, o in ((l, r), (r, l)):
                 if a.get("k") == "Ref" and a.get("d") == loop_var and o.get("k") == "Ref" and o.get("dk") == "local":
-                    out.append((b["id"], o["d"], b["succ"][0], b["succ"][1]))
+                    out.append((b["id"], o["d"], b["succ"][1 if flip else 0], b["succ"][0 if flip else 1]))
     return out
 
 
@@ -1830,35 +2202,42 @@ def rule_layered(ck, job, vctx, enum, inv_enum):
             P = Proto(fx, wm.field_of.get("thread_fences"), wsym, own=ID)
             items = P.stmts(fn.body.get("s", []))
             works = [i for i in items if i["k"] == "work"]
-            loop = work_loop(fx)
-            if loop is None or len(works) != 1:
+            if len(works) != 1 or not fx.owns(works[0]["loop"]):
+                raise Unknown("element loop not identified")
+            loop = work_loop(fx) or works[0]["loop"]
+            if loop is not works[0]["loop"]:
                 raise Unknown("element loop not identified")
             ln = loop_normal(fx, loop)
             if ln is None:
                 raise Unknown("element loop is not a counting loop")
             H = fx.header_block(loop)
             body_entry = fx.cfg.blocks[H]["succ"][0]
-            inner = list(all_events(works[0]["inner"]))
-            if any(e.get("inlined") for e in inner):
-                raise Unknown("fence operations of the element loop are performed inside member helpers")
+            inner = list(all_events(works[0]["inner"])) + list(works[0]["tasks"])
             waits = [e for e in inner if e["k"] == "wait" and e["f"] == "NEXT"]
             opens = [e for e in inner if e["k"] == "open" and e["f"] == "OWN"]
-            scat = [n for n in walk(loop.get("body")) if task_call(n, "scatter")]
+            scat_ev = [e for e in inner if e["k"] == "task" and e["name"] == "scatter"]
             other = [e for e in inner if e["k"] in ("wait", "open", "close") and e not in waits and e not in opens]
             R = "E7.layered-wait-before-scatter"
-            if not waits or not opens or not scat:
+            if not waits or not opens or not scat_ev:
                 ck.ob(R, name + "/handshake", False,
-                      "the worker variant used for the layered strategies with a scattering task has %d wait(next fence), %d open(own fence), %d scatter() in its element loop: adjacent layers of neighbouring threads are not serialised" % (len(waits), len(opens), len(scat)),
+                      "the worker variant used for the layered strategies with a scattering task has %d wait(next fence), %d open(own fence), %d scatter() in its element loop: adjacent layers of neighbouring threads are not serialised" % (len(waits), len(opens), len(scat_ev)),
                       fn.file, loop.get("l"))
                 continue
             if other:
                 raise Unknown("unexpected fence events in the element loop: %s" % [(e["k"], e["f"], e["l"]) for e in other])
+            # CFG statements standing for the events (the helper call for an event inlined from a helper)
+            wst = [cfg_stmt(fx, e) for e in waits]
+            ost = [cfg_stmt(fx, e) for e in opens]
+            scat = [cfg_stmt(fx, e) for e in scat_ev]
+            ids_ = [{x["i"] for x in g} for g in (wst, ost, scat)]
+            if (ids_[0] & ids_[1]) or (ids_[0] & ids_[2]) or (ids_[1] & ids_[2]):
+                raise Unknown("wait / scatter / open of the handshake are performed inside one member helper; their order is not followed")
             tests = eq_tests(fx, ln[0])
             S = [n["i"] for n in scat]
-            W = [e["node"]["i"] for e in waits]
-            O = [e["node"]["i"] for e in opens]
-            tw = [controlling_test(fx, tests, e["node"], H) for e in waits]
-            to = [controlling_test(fx, tests, e["node"], H) for e in opens]
+            W = [n["i"] for n in wst]
+            O = [n["i"] for n in ost]
+            tw = [controlling_test(fx, tests, n, H) for n in wst]
+            to = [controlling_test(fx, tests, n, H) for n in ost]
             if any(t is None for t in tw + to):
                 raise Unknown("a fence event of the element loop is not controlled by a single `element == position` test")
             dw = {t[1] for t in tw}
@@ -1926,7 +2305,7 @@ def rule_layered(ck, job, vctx, enum, inv_enum):
                     if exp[what][0] is SENTINEL and got != SENTINEL:
                         # a position is set although this thread must not wait/open: fine if the event is switched off otherwise
                         evs_ = waits if what == "wait-position" else opens
-                        if all(event_disabled(wm, fx, e_["node"], ctx, loop) for e_ in evs_):
+                        if all(event_disabled(wm, fx, cfg_stmt(fx, e_), ctx, loop) for e_ in evs_):
                             continue
                     rs = [refute_zero(got - e_) for e_ in exp[what]]
                     if any(r_ is None for r_ in rs):
@@ -1942,14 +2321,101 @@ def rule_layered(ck, job, vctx, enum, inv_enum):
                       ("; ".join(res[what][:3])) if res[what] else "%s in all %d contexts (%s with F=%s, G=%s)" % (doc[what], len(ctxs), {"range-begin": "F(G(id-1))", "range-end": "F(G(id))", "wait-position": "F(G(id)-1)", "open-position": "F(G(id-1)+1)-1"}[what], Fn_, Gn_),
                       fn.file, loop.get("l"))
             # element handed to prepare()
-            prep = [n for n in walk(loop.get("body")) if task_call(n, "prepare")]
-            got = [sx(fn, p["a"][0], {**wsym, ("l", ln[0]): K, ("inits",): single_def_inits(fn)}) for p in prep]
+            prep = [e for e in inner if e["k"] == "task" and e["name"] == "prepare" and e["node"].get("a")]
+            if not prep:
+                raise Unknown("no task->prepare(cell) in the element loop")
+            top_form = lambda nd: sx(fn, nd, {**wsym, ("l", ln[0]): K, ("inits",): single_def_inits(fn)})
+            got = [e["proto"].form(e["node"]["a"][0], top_form) for e in prep]
             rp = [refute_zero(g - VF(En_)(K)) for g in got]
             if any(r_ == "unknown" for r_ in rp):
                 raise Unknown("prepare() argument %s not comparable with %s[k]" % (got, En_))
             ck.ob(R, name + "/prepared-element", all(r_ is None for r_ in rp), "prepare() receives %s for loop position k (expected %s(k))" % (got, En_), fn.file, prep[0].get("l"))
         except Unknown as e:
             ck.incomplete("E7.layered-wait-before-scatter", "%s: %s" % (name, e))
+
+
+def wait_result_use(fx, n, what):
+    """how the boolean result of call `n` (a ThreadFence::wait(), or a member helper that forwards a
+    wait result) is used in fx's function.  Returns (verdict, detail) with verdict
+      "ok"        a false result leads to `return false` before any further task/fence operation
+      "forwarded" the result (and nothing else) is returned to the caller, no task/fence operation between
+      "bad"       definite misuse (detail says which)
+      "unknown"   not modelled (detail says why)"""
+    fn = fx.fn
+    sync_helper = lambda x: x.get("k") == "MCall" and (x.get("obj") or {}).get("k") == "This" and x is not n and \
+        (find_method(fn.cls, x) is None or has_sync_events(find_method(fn.cls, x)))
+    sensitive = [x["i"] for x in fn.nodes() if x.get("i") is not None and x is not n and (task_call(x) or fence_call(x) or sync_helper(x))]
+    is_false = lambda r: strip(r.get("e") or {}).get("k") == "Bool" and strip(r["e"])["v"] is False
+    rets = [x for x in fn.nodes() if x.get("k") == "Return" and not any(a_.get("k") == "Lambda" for a_ in fx.ancestors(x))]
+    false_rets = [x["i"] for x in rets if is_false(x)]
+    p = fx.parent.get(id(n))
+    q = n
+    while p is not None and p.get("k") == "Cast":
+        q, p = p, fx.parent.get(id(p))
+    discarded = p is None or p.get("k") in ("Block", "Case", "Default", "Try") or \
+        (p.get("k") in ("If",) and q is not p.get("c")) or (p.get("k") in ("For", "While", "Do", "ForRange") and q is p.get("body")) or \
+        (fx.parent.get(id(n)) or {}).get("to") == "void"
+    if discarded:
+        return "bad", "the result of %s at line %s is discarded: after a failure elsewhere (false status) this thread carries on - it scatters next to a thread that gave up or never leaves the round protocol" % (what, n.get("l"))
+    # result stored in a local?
+    var = None
+    a = fx.parent.get(id(n))
+    while a is not None and a.get("k") in ("Cast",):
+        a = fx.parent.get(id(a))
+    if a is not None and a.get("k") == "Var":
+        var = a["d"]
+    elif a is not None and a.get("k") == "Assign" and a.get("op") == "=" and strip(a["lhs"]).get("k") == "Ref" and strip(a["rhs"]) is n:
+        var = strip(a["lhs"])["d"]
+    if var is not None and var not in single_def_inits(fn) and a.get("k") == "Var":
+        var_dirty = True
+    else:
+        var_dirty = False
+    mentions = lambda c: any(x is n for x in walk(c)) or (var is not None and any(x.get("k") == "Ref" and x.get("d") == var for x in walk(c)))
+    tests = []
+    undecided = None
+    for b in fx.cfg.blocks.values():
+        if b.get("cond") is None or len(b.get("succ", [])) != 2:
+            continue
+        c = fn.by_id(b["cond"])
+        if c is None or not mentions(c):
+            continue
+        env = Env()
+        env.callvals[n["i"]] = 0
+        if var is not None:
+            env.locs[var] = 0
+        try:
+            v = ev(fn, c, env)
+        except Unknown as ex:
+            undecided = str(ex)
+            continue
+        tests.append((b["id"], b["succ"][0 if v else 1]))
+    wpos = fx.pos(n)
+    if not tests:
+        # forwarded to the caller: every return reachable from the call returns exactly the result
+        fwd = [r for r in rets if r.get("e") is not None and (strip(r["e"]) is n or (var is not None and not var_dirty and strip(r["e"]).get("k") == "Ref" and strip(r["e"]).get("d") == var))]
+        if fwd and undecided is None:
+            others = [r["i"] for r in rets if r not in fwd and not is_false(r)]
+            r1 = fx.reach((wpos[0], wpos[1] + 1), target_stmts=sensitive + others, avoid_blocks=fx.cfg.noreturn_blocks())
+            if r1 is None:
+                return "forwarded", "the result of %s is returned to the caller" % what
+        return "unknown", "the result of %s at line %s is used in a way that is not modelled (%s)" % (what, n.get("l"), undecided or "no branch tests it")
+    nonfalse = [x["i"] for x in rets if not is_false(x)]
+    tblocks = [t[0] for t in tests]
+    covered = wpos[0] in tblocks or fx.reach((wpos[0], wpos[1] + 1), target_stmts=sensitive + nonfalse, avoid_blocks=tblocks) is None
+    bad_fail = None
+    for tb, fs in tests:
+        if fs is None:
+            continue
+        r1 = fx.reach((fs, 0), target_stmts=sensitive + nonfalse, avoid_blocks=fx.cfg.noreturn_blocks())
+        r2 = fx.reach((fs, 0), target_blocks=[fx.cfg.exit], avoid_stmts=false_rets, avoid_blocks=fx.cfg.noreturn_blocks())
+        if r1 is not None or r2 is not None:
+            bad_fail = (tb, r1, r2)
+    if covered and bad_fail is None:
+        return "ok", "a false result (failed neighbour/master) leads to `return false` before any further task/fence operation"
+    if not covered:
+        return "bad", "after %s at line %s a task/fence operation is reachable before the result is tested" % (what, n.get("l"))
+    return "bad", "when %s at line %s returns false the thread does not leave with `return false` (it reaches %s): it carries on next to a thread that gave up" % (
+        what, n.get("l"), "line %s" % (fn.by_id(bad_fail[1][1]) or {}).get("l") if bad_fail[1] else "a normal return")
 
 
 def rule_wait_results(ck, job, vctx):
@@ -1966,82 +2432,40 @@ def rule_wait_results(ck, job, vctx):
             ck.incomplete(R, "%s::%s: %s" % (job.name, variant, e))
             continue
         cnt = {}
-        sensitive = [n["i"] for n in fn.nodes() if n.get("i") is not None and (task_call(n) or fence_call(n))]
-        sensitive += [n["i"] for n in fn.nodes() if n.get("k") == "Return" and not (strip(n.get("e") or {}).get("k") == "Bool" and strip(n["e"])["v"] is False)]
-        false_rets = [n["i"] for n in fn.nodes() if n.get("k") == "Return" and strip(n.get("e") or {}).get("k") == "Bool" and strip(n["e"])["v"] is False]
         for e in all_events(items):
             if e["k"] != "wait":
                 continue
             f = e["f"] if isinstance(e["f"], str) else e["f"][1]
             cnt[f] = cnt.get(f, 0) + 1
             key = "%s::%s/wait(%s)#%d" % (job.name, variant, f, cnt[f])
-            if e.get("inlined"):
-                ck.incomplete(R, "%s: the wait happens inside a member helper; the use of its result is not followed" % key)
+            what = "wait() on fence %s" % f
+            # follow the result outwards through the helpers the wait is inlined from: in each helper a
+            # false result must end in `return false` or be returned; the outermost function must
+            # leave with `return false`
+            chain = list(e.get("chain", []))          # helper calls, outermost first
+            node, nfx = e["node"], e["fx"]
+            verdict, detail = wait_result_use(nfx, node, what)
+            while verdict in ("ok", "forwarded") and chain:
+                call = chain.pop()                  # the call of the function analysed so far
+                cfx = fx if not chain else None
+                if cfx is None:
+                    cfn = next((g for g in wm.methods.values() if any(x is call for x in g.nodes())), None)
+                    cfx = wm.fx(cfn) if cfn is not None else None
+                if cfx is None or not cfx.owns(call):
+                    verdict, detail = "unknown", "caller of the helper at line %s not found" % call.get("l")
+                    break
+                if "bool" not in (cfx.fn.ntype(call) or ""):
+                    verdict, detail = "unknown", "%s (line %s) happens inside the helper `%s`, whose result is not a bool status" % (what, e["l"], call.get("callee", "").rsplit("::", 1)[-1])
+                    break
+                what = "the helper `%s` (forwarding the result of wait() on fence %s)" % (call.get("callee", "").rsplit("::", 1)[-1], f)
+                verdict, detail = wait_result_use(cfx, call, what)
+            if verdict == "forwarded":
+                # `return fence.wait();` as the last synchronisation of the work function: false is returned
+                verdict, detail = "ok", "the wait result is what %s() returns, with no task/fence operation after the wait" % variant
+            if verdict == "unknown":
+                ck.incomplete(R, "%s: %s" % (key, detail))
                 continue
-            n = e["node"]
-            p = fx.parent.get(id(n))
-            q = n
-            while p is not None and p.get("k") == "Cast":
-                q, p = p, fx.parent.get(id(p))
-            discarded = p is None or p.get("k") in ("Block", "Case", "Default", "Try") or \
-                (p.get("k") in ("If",) and q is not p.get("c")) or (p.get("k") in ("For", "While", "Do", "ForRange") and q is p.get("body")) or \
-                (fx.parent.get(id(n)) or {}).get("to") == "void"
-            if discarded:
-                ck.ob(R, key, False, "the result of wait() on fence %s at line %s is discarded: after a failure elsewhere (false status) this thread carries on - it scatters next to a thread that gave up or never leaves the round protocol" % (f, e["l"]), fn.file, e["l"])
-                continue
-            # result stored in a local?
-            var = None
-            a = fx.parent.get(id(n))
-            while a is not None and a.get("k") in ("Cast",):
-                a = fx.parent.get(id(a))
-            if a is not None and a.get("k") == "Var":
-                var = a["d"]
-            elif a is not None and a.get("k") == "Assign" and strip(a["lhs"]).get("k") == "Ref" and strip(a["rhs"]) is n:
-                var = strip(a["lhs"])["d"]
-            tests = []
-            undecided = None
-            for b in fx.cfg.blocks.values():
-                if b.get("cond") is None or len(b.get("succ", [])) != 2:
-                    continue
-                c = fn.by_id(b["cond"])
-                if c is None:
-                    continue
-                has = any(x is n for x in walk(c)) or (var is not None and any(x.get("k") == "Ref" and x.get("d") == var for x in walk(c)))
-                if not has:
-                    continue
-                env = Env()
-                env.callvals[n["i"]] = 0
-                if var is not None:
-                    env.locs[var] = 0
-                try:
-                    v = ev(fn, c, env)
-                except Unknown as ex:
-                    undecided = str(ex)
-                    continue
-                tests.append((b["id"], b["succ"][0 if v else 1]))
-            if not tests:
-                ck.incomplete(R, "%s: the result of wait() at line %s is used in a way that is not modelled (%s)" % (key, e["l"], undecided or "no branch tests it"))
-                continue
-            wpos = fx.pos(n)
-            tblocks = [t[0] for t in tests]
-            covered = wpos[0] in tblocks or fx.reach((wpos[0], wpos[1] + 1), target_stmts=sensitive, avoid_blocks=tblocks) is None
-            bad_fail = None
-            for tb, fs in tests:
-                if fs is None:
-                    continue
-                r1 = fx.reach((fs, 0), target_stmts=sensitive, avoid_blocks=fx.cfg.noreturn_blocks())
-                r2 = fx.reach((fs, 0), target_blocks=[fx.cfg.exit], avoid_stmts=false_rets, avoid_blocks=fx.cfg.noreturn_blocks())
-                if r1 is not None or r2 is not None:
-                    bad_fail = (tb, r1, r2)
-            ok = covered and bad_fail is None
-            if ok:
-                d = "a false result (failed neighbour/master) leads to `return false` before any further task/fence operation"
-            elif not covered:
-                d = "after wait() on fence %s at line %s a task/fence operation is reachable before the result is tested" % (f, e["l"])
-            else:
-                d = "when wait() on fence %s at line %s returns false the thread does not leave with `return false` (it reaches %s): it carries on next to a thread that gave up" % (
-                    f, e["l"], "line %s" % (fn.by_id(bad_fail[1][1]) or {}).get("l") if bad_fail[1] else "a normal return")
-            ck.ob(R, key, ok, d, fn.file, e["l"])
+            ck.ob(R, key, verdict == "ok", detail, fn.file, e["l"])
 
 
 def rule_failure_open(ck, job):
@@ -2057,7 +2481,8 @@ def rule_failure_open(ck, job):
                      and any("unique_ptr" in fn.ntype(strip(a_)) for a_ in n_.get("a", []))}
         items = Proto(fx, wm.field_of.get("thread_fences"), wsym, own=ID, skip=variants_).stmts(fn.body.get("s", []))
         opens = [e for e in all_events(items) if e["k"] == "open" and e["f"] == "OWN"]
-        disp = [n for n in fn.nodes() if n.get("k") == "MCall" and (n.get("obj") or {}).get("k") == "This" and n.get("n") in wm.methods and n.get("n") != "operator()"]
+        disp = [n for n in fn.nodes() if n.get("k") == "MCall" and (n.get("obj") or {}).get("k") == "This" and n.get("n") in wm.methods and n.get("n") != "operator()"
+                and has_sync_events(wm.methods[n["n"]]) and any("unique_ptr" in fn.ntype(strip(a_)) for a_ in n.get("a", []))]
         flag = set()
         for d in disp:
             p = fx.parent.get(id(d))
@@ -2088,7 +2513,7 @@ def rule_failure_open(ck, job):
                 raise Unknown("status test `%s` not evaluable" % render(c))
         if not opens or not cut:
             raise Unknown("operator() has no `status false -> open(own fence)` structure (opens=%d, status tests=%d); failure notification may be organised differently" % (len(opens), len(cut)))
-        O = [e["node"]["i"] for e in opens]
+        O = [cfg_stmt(fx, e)["i"] for e in opens]
         tries = [b_["id"] for b_ in fx.cfg.blocks.values() if b_.get("term") == "CXXTryStmt"]
         esc = fx.reach((fx.cfg.entry, 0), target_blocks=[fx.cfg.exit], avoid_stmts=O, cut_edges=cut)
         for s_ in tries:
@@ -2181,8 +2606,12 @@ def rule_partition(ck, job, vctx, enum):
             if is_layered or any(e["k"] == "wait" and e["f"] == "NEXT" for e in all_events(items)):
                 continue        # layered: E7.layered-* / E5.layered-positions
             loop = work_loop(fx)
+            works = [i for i in all_events(items) if i["k"] == "work" and fx.owns(i["loop"])]
+            if loop is None and len(works) == 1:
+                loop = works[0]["loop"]         # the task calls of the element loop sit in a member helper
+            works = [w_ for w_ in works if w_["loop"] is loop]
             ln = loop_normal(fx, loop) if loop is not None else None
-            if ln is None or ln[3] != 1:
+            if ln is None or ln[3] != 1 or len(works) != 1:
                 raise Unknown("element loop is not an ascending counting loop")
             c = strip(ln[2])
             if c.get("k") != "Bin" or c["op"] != "<" or strip(c["lhs"]).get("d") != ln[0]:
@@ -2197,7 +2626,7 @@ def rule_partition(ck, job, vctx, enum):
                     raise Unknown("round loop is not a counting loop")
                 sym[("l", rl[0])] = RC
             ctxs = sorted({(c_[0], c_[1], c_[2]) for c_ in vctx[variant]})
-            prep = [n for n in walk(loop.get("body")) if task_call(n, "prepare")]
+            prep = [e for e in list(all_events(works[0]["inner"])) + list(works[0]["tasks"]) if e["k"] == "task" and e["name"] == "prepare" and e["node"].get("a")]
             if len(prep) != 1:
                 raise Unknown("%d prepare() calls in the element loop" % len(prep))
             E = VF(En_)
@@ -2208,7 +2637,7 @@ def rule_partition(ck, job, vctx, enum):
             for ctx in ctxs:
                 beg = node_form(wm, fx, ln[1], ctx, sym, scope, cache)
                 end = node_form(wm, fx, c["rhs"], ctx, sym, scope, cache)
-                pidx = node_form(wm, fx, prep[0]["a"][0], ctx, {**sym, ("l", ln[0]): K}, scope, cache)
+                pidx = prep[0]["proto"].form(prep[0]["node"]["a"][0], lambda nd: node_form(wm, fx, nd, ctx, {**sym, ("l", ln[0]): K}, scope, cache))
                 if not (pidx.func == E and len(pidx.args) == 1):
                     raise Unknown("prepare() argument %s is not an entry of the element index vector" % pidx)
                 base = sympy.simplify(pidx.args[0] - K)
@@ -3175,7 +3604,7 @@ def rule_clear_resets(ck, facts):
         helper_resets = []
         for n in opq:
             h = find_method(clr.cls, n)
-            if h is not None and h.cfg is not None and not n.get("a"):
+            if h is not None and h.cfg is not None and not h.d.get("virtual"):
                 hx = FX(h)
                 hr = member_resets(hx, fld)
                 if hr and hx.reach((hx.cfg.entry, 0), target_blocks=[hx.cfg.exit], avoid_stmts=hr, avoid_blocks=hx.cfg.noreturn_blocks()) is None:
@@ -3214,27 +3643,86 @@ def rule_clear_keeps_size(ck, facts):
         ck.incomplete(R, "DomainAssembler::clear not in the fact base")
         return
     fx = FX(clr)
+
+    def touches(f, m, depth=0):
+        for n in f.nodes():
+            if n.get("k") == "Member" and this_field(n) == m:
+                return True
+            if n.get("k") == "MCall" and (n.get("obj") or {}).get("k") == "This":
+                h = find_method(f.cls, n)
+                if h is None or depth >= 3 or h.d.get("virtual") or touches(h, m, depth + 1):
+                    return True
+            elif is_call(n) and any(strip(a_).get("k") == "This" for a_ in n.get("a", [])):
+                return True
+        return False
+
+    def size_effects(fx_, m, depth=0):
+        """CFG statements of fx_ that may leave member m empty (shrink), that size it again (regrow),
+        and whose effect on its size is not modelled (unknown); member helpers are summarised"""
+        fn_ = fx_.fn
+        shrink, regrow, unknown = [], [], []
+        for n in fn_.nodes():
+            i = n.get("i")
+            if i is None or fx_.cfg.block_of(i) is None:
+                continue
+            if n.get("k") == "MCall" and this_field(n.get("obj")) == m:
+                a0 = strip(n["a"][0]) if n.get("a") else {}
+                if (n.get("n") == "clear" and not n.get("a")) or (n.get("n") == "resize" and a0.get("k") == "Int" and int(a0.get("v")) == 0):
+                    shrink.append(n)
+                elif n.get("n") == "swap" and a0.get("k") in ("Construct", "TempObj") and not a0.get("a"):
+                    shrink.append(n)
+                elif n.get("n") in ("resize", "assign"):
+                    regrow.append(n)
+                elif n.get("n") not in VEC_READS and n.get("n") not in ("insert", "emplace", "cbegin", "cend", "rbegin", "rend", "max_size", "shrink_to_fit"):
+                    unknown.append(n)
+            elif n.get("k") == "MCall" and n.get("n") == "swap" and strip(n.get("obj") or {}).get("k") in ("Construct", "TempObj") and not strip(n["obj"]).get("a") \
+                    and n.get("a") and this_field(n["a"][0]) == m:
+                shrink.append(n)
+            elif n.get("k") == "OpCall" and n.get("op") == "=" and n.get("a") and this_field(n["a"][0]) == m:
+                r_ = strip(n["a"][1]) if len(n["a"]) > 1 else {}
+                if r_.get("k") in ("Construct", "TempObj") and not r_.get("a"):
+                    shrink.append(n)            # m = std::vector<T>()
+                elif r_.get("k") in ("Construct", "TempObj"):
+                    a0 = strip(r_["a"][0])
+                    (shrink if a0.get("k") == "Int" and int(a0.get("v")) == 0 else regrow).append(n)
+                else:
+                    unknown.append(n)
+            elif n.get("k") == "MCall" and (n.get("obj") or {}).get("k") == "This":
+                h = find_method(fn_.cls, n)
+                if h is None or h.cfg is None or h.d.get("virtual") or depth >= 2:
+                    unknown.append(n)
+                    continue
+                if not touches(h, m):
+                    continue
+                hx = FX(h)
+                hs, hr, hu = size_effects(hx, m, depth + 1)
+                nr_ = hx.cfg.noreturn_blocks()
+                if hu:
+                    unknown.append(n)
+                elif any(hx.reach((hx.pos(x)[0], hx.pos(x)[1] + 1), target_blocks=[hx.cfg.exit], avoid_stmts=[y["i"] for y in hr], avoid_blocks=nr_) is not None for x in hs):
+                    shrink.append(n)
+                elif hr and hx.reach((hx.cfg.entry, 0), target_blocks=[hx.cfg.exit], avoid_stmts=[y["i"] for y in hr], avoid_blocks=nr_) is None:
+                    regrow.append(n)
+            elif is_call(n) and n.get("k") not in ("MCall",) and any(this_field(a_) == m or strip(a_).get("k") == "This" for a_ in n.get("a", [])):
+                unknown.append(n)
+        return shrink, regrow, unknown
     for m, how in sorted(sized.items()):
         users = sorted({f.name for f in fns.values() if f.name != "clear" for n in f.nodes()
                         if (n.get("k") == "MCall" and n.get("n") == "at" and this_field(n.get("obj")) == m) or
                         (n.get("k") == "OpCall" and n.get("op") == "[]" and n.get("a") and this_field(n["a"][0]) == m)})
         if not users:
             continue
-        shrink, regrow = [], []
-        for n in clr.nodes():
-            if n.get("k") == "MCall" and this_field(n.get("obj")) == m and n.get("i") is not None and fx.cfg.block_of(n["i"]) is not None:
-                a0 = strip(n["a"][0]) if n.get("a") else {}
-                if (n.get("n") == "clear" and not n.get("a")) or (n.get("n") == "resize" and a0.get("k") == "Int" and a0.get("v") == "0"):
-                    shrink.append(n)
-                elif n.get("n") in ("resize", "assign"):
-                    regrow.append(n["i"])
-            if n.get("k") == "OpCall" and n.get("op") == "=" and n.get("a") and this_field(n["a"][0]) == m and n.get("i") is not None:
-                regrow.append(n["i"])
+        shrink, regrow, unknown = size_effects(fx, m)
         key = "clear/%s" % m
-        if opaque_calls(fx, about={m}) and not shrink:
-            ck.incomplete(R, "%s: clear() hands the member to helpers" % key)
+        nr_ = fx.cfg.noreturn_blocks()
+        rg = [x["i"] for x in regrow]
+        bad = [s_ for s_ in shrink if fx.reach((fx.pos(s_)[0], fx.pos(s_)[1] + 1), target_blocks=[fx.cfg.exit], avoid_stmts=rg, avoid_blocks=nr_) is not None]
+        definite = [s_ for s_ in bad if fx.reach((fx.pos(s_)[0], fx.pos(s_)[1] + 1), target_blocks=[fx.cfg.exit], avoid_stmts=rg + [x["i"] for x in unknown], avoid_blocks=nr_) is not None]
+        if (bad and not definite) or (not bad and unknown and
+                                      fx.reach((fx.cfg.entry, 0), target_blocks=[fx.cfg.exit], avoid_stmts=rg, avoid_blocks=nr_) is not None):
+            u0 = unknown[0]
+            ck.incomplete(R, "%s: clear() changes the member through a construct whose effect on its size is not modelled (`%s`, line %s)" % (key, render(u0)[:80], u0.get("l")))
             continue
-        bad = [s_ for s_ in shrink if fx.reach((fx.pos(s_)[0], fx.pos(s_)[1] + 1), target_blocks=[fx.cfg.exit], avoid_stmts=regrow, avoid_blocks=fx.cfg.noreturn_blocks()) is not None]
         ck.ob(R, key, not bad,
               "clear() empties %s (line %s) and does not size it again, but the constructor sizes it as %s and %s subscript it with mesh cell numbers: after clear(), add_element()/add_mesh_part() throw std::out_of_range and compile() selects no cell" % (m, bad[0].get("l"), how, ", ".join(u + "()" for u in users)) if bad
               else "clear() keeps the mesh-cell size of %s that %s rely on" % (m, ", ".join(u + "()" for u in users)),
